@@ -30,6 +30,12 @@ Definition obs_match (ev : bool) (loops : bool) (model : list obs * mres) (go : 
   && (if ev then list_eqb obs_eqb (only_events (fst model)) (if loops then gev else drop_loops gev) else true)
   && mres_eqb (snd model) gout.
 
+(* the event streams, LOOP positions erased *)
+Definition erase_pos (o : obs) : obs := match o with OLoop _ k st => OLoop 0 k st | x => x end.
+Definition events_match (model : list obs * mres) (go : list obs * list obs * mres) : bool :=
+  let '(_, gev, _) := go in
+  list_eqb obs_eqb (map erase_pos (only_events (fst model))) (map erase_pos gev).
+
 (* static conditions on a program that the proof of run∘compile needs and compile guarantees *)
 Definition stack_ok (P : prog) : bool :=
   forallb (fun nd => (osTop nd + 1 <=? maxStack P)) (nodes P).
@@ -94,15 +100,13 @@ Definition chk_eval (c : ecase) : list N :=
      (match ec_prog c, ec_eval c with
       | Some Pg, Some o => if obs_match ev true (eval fetch test_custom Pg) o then [] else [4%N]
       | _, _ => [] end) ++
-     (* 14 (C12): event mode, Go's program IS the model's program, and the events Go emits (OP_EXEC payloads, LOOP
-            position / node / stack snapshot) differ from those of the proven loop run on that very program *)
-     (match ec_prog c with
-      | Some Pg =>
-        if ev && prog_eqb Pm Pg then
-          (match ec_eval c with Some o => if obs_match ev true (eval fetch test_custom Pg) o then [] else [14%N] | None => [] end) ++
-          (match ec_try c with Some o => if obs_match ev true (tryeval fetch test_custom cached Pg) o then [] else [14%N] | None => [] end)
-        else []
-      | None => [] end) ++
+     (* 14 (C12): event mode: the events Go emits - OP_EXEC payloads, LOOP node and stack snapshot, in order, the LOOP
+            POSITIONS erased (the property only asks them to increase) - differ from those of the proven loop on the
+            model's own event-mode program of the same optimised tree (T-EVENT is about that run) *)
+     (if ev then
+        (match ec_eval c with Some o => if events_match (eval fetch test_custom Pm) o then [] else [14%N] | None => [] end) ++
+        (match ec_try c with Some o => if events_match (tryeval fetch test_custom cached Pm) o then [] else [14%N] | None => [] end)
+      else []) ++
      (* 5: behaviour against the reference semantics of the optimised tree (C01/C03) *)
      (match ec_eval c with
       | Some o =>
